@@ -37,7 +37,7 @@ func New(opts ...WriterOption) *Writer {
 	ensureSerializersInitialized()
 	w := &Writer{
 		Storage: fstore.NewFileSystem(),
-		Options: defaultOptions,
+		Options: defaultOptions.clone(),
 	}
 
 	for _, opt := range opts {
@@ -105,6 +105,9 @@ func (w *Writer) WriteStreamWithOptions(bom *sbom.Document, wr io.WriteCloser, o
 
 	so := o.SerializeOptions
 	if so == nil {
+		so = w.Options.SerializeOptions
+	}
+	if so == nil {
 		so = defaultOptions.SerializeOptions
 	}
 
@@ -114,6 +117,9 @@ func (w *Writer) WriteStreamWithOptions(bom *sbom.Document, wr io.WriteCloser, o
 	}
 
 	ro := o.RenderOptions
+	if ro == nil {
+		ro = w.Options.RenderOptions
+	}
 	if ro == nil {
 		ro = defaultOptions.RenderOptions
 	}
@@ -148,7 +154,7 @@ func (w *Writer) WriteFile(bom *sbom.Document, path string) error {
 
 // Store persists a protobom document to disk using the default options
 func (w *Writer) Store(bom *sbom.Document) error {
-	return w.StoreWithOptions(bom, defaultOptions)
+	return w.StoreWithOptions(bom, w.Options)
 }
 
 // StoreWithOptions stores a protobom document using the configured storage
